@@ -189,7 +189,7 @@ def main(argv):
         print(f"KNOWN-FINDING: property={pid} {k['text']} {note}")
     replay_paths = []
     if new_viol:
-        rdir = os.path.join(HERE, "replays", pid)
+        rdir = os.path.join(os.environ.get("VERIF_REPLAY_DIR", os.path.join(HERE, "replays")), pid)
         os.makedirs(rdir, exist_ok=True)
         for sig, v in sorted(new_viol.items()):
             h = hashlib.blake2b(sig.encode(), digest_size=5).hexdigest()
@@ -238,8 +238,9 @@ def main(argv):
         "violations": len(new_viol),
     }
     if rc != 2:
-        os.makedirs(os.path.join(HERE, "evidence"), exist_ok=True)
-        with open(os.path.join(HERE, "evidence", f"{pid}.json"), "w") as f:
+        evdir = os.environ.get("VERIF_EVIDENCE_DIR", os.path.join(HERE, "evidence"))
+        os.makedirs(evdir, exist_ok=True)
+        with open(os.path.join(evdir, f"{pid}.json"), "w") as f:
             json.dump(ev, f, indent=1, default=str)
     print(
         f"{pid} {tier} seed={base_seed}: {tot['evals']} cases, {len(tot['nontrivial'])} distinct "
